@@ -266,6 +266,164 @@ pub fn hist_one(data: &[u8], mask: &[&str], known: &Known) -> Vec<Found> {
     out
 }
 
+
+// ---------------------------------------------------------------------------
+// `enc` target: encoder calls decoded from bytes (C01, C03-C08, C16)
+
+fn arb_bytes(u: &mut Unstructured, max: usize) -> Vec<u8> {
+    let n = u.int_in_range(0..=max).unwrap_or(0);
+    (0..n).map(|_| u.arbitrary::<u8>().unwrap_or(0)).collect()
+}
+
+fn arb_opt_header(u: &mut Unstructured) -> Option<Vec<u8>> {
+    match u.int_in_range(0..=3u8).unwrap_or(0) {
+        0 => None,
+        1 => Some(vec![]),
+        _ => Some(arb_bytes(u, 8)),
+    }
+}
+
+fn arb_enc_call(u: &mut Unstructured, invalid: bool) -> EncCall {
+    use EncCall::*;
+    let b = |u: &mut Unstructured| u.arbitrary::<u8>().unwrap_or(0);
+    let half = |u: &mut Unstructured| if u.arbitrary::<bool>().unwrap_or(false) { Half::Resp } else { Half::Req };
+    let big = if invalid { 300 } else { 245 };
+    match u.int_in_range(0..=27u8).unwrap_or(0) {
+        0 => {
+            let eid = b(u);
+            let eid = if !invalid && (eid == 0 || eid == 0xFF) { 0x42 } else { eid };
+            ReqSetEndpointId { op: b(u) & 3, eid }
+        }
+        1 => ReqGetEndpointId,
+        2 => ReqGetEndpointUuid,
+        3 => ReqGetVersion { query: b(u) % 5 },
+        4 => ReqGetMsgTypes,
+        5 => ReqGetVendorSupport { sel: b(u) },
+        6 => ReqResolveEid { eid: b(u) },
+        7 => ReqAllocateEids { op: b(u) % 3, pool: b(u), start: b(u) },
+        8 => {
+            let n = u.int_in_range(0..=if invalid { 10usize } else { 7 }).unwrap_or(0);
+            ReqRoutingUpdate { entries: (0..n).map(|_| [b(u), b(u), b(u), b(u)]).collect() }
+        }
+        9 => ReqGetRoutingTable { handle: b(u) },
+        10 => ReqPrepareDiscovery,
+        11 => ReqEndpointDiscovery,
+        12 => ReqDiscoveryNotify,
+        13 => ReqGetNetworkId,
+        14 => ReqQueryHop { eid: b(u), mt: b(u) % 6 },
+        15 => {
+            let mut x = [0u8; 16];
+            for v in x.iter_mut() {
+                *v = b(u);
+            }
+            ReqResolveUuid { uuid: x, handle: b(u) }
+        }
+        16 => ReqQueryRateLimit,
+        17 | 18 => {
+            let format = if invalid { b(u) } else { b(u) & 1 };
+            let data = u.arbitrary::<u32>().unwrap_or(0x1234);
+            let mut msg = arb_bytes(u, big);
+            if !invalid {
+                msg.truncate(if format == 0 { 247 } else { 245 });
+            }
+            ReqVendor { format, data, numeric: 0, msg }
+        }
+        19 => {
+            let header = arb_opt_header(u);
+            let mut data = arb_bytes(u, big);
+            if !invalid {
+                data.truncate(refmodel::MAX_BODY - header.as_ref().map(|h| h.len()).unwrap_or(0));
+            }
+            match b(u) % 4 {
+                0 => TraitPci { half: half(u), header, data },
+                1 => TraitIana { half: half(u), header, data },
+                2 => TraitSpdm { half: half(u), secured: false, header, data },
+                _ => TraitSpdm { half: half(u), secured: true, header, data },
+            }
+        }
+        20 => RespSetEndpointId { cc: b(u) % 6, assign: b(u) & 1, alloc: b(u) % 3 },
+        21 => RespGetEndpointId { cc: b(u) % 6, etype: b(u) & 1, idtype: b(u) & 3, fairness: b(u) & 1 == 1 },
+        22 => {
+            let mut x = [0u8; 16];
+            for v in x.iter_mut() {
+                *v = b(u);
+            }
+            RespUuid { cc: b(u) % 6, uuid: x }
+        }
+        23 => RespVersion { cc: b(u) % 6 },
+        24 | 25 => RespMsgTypes { cc: b(u) % 6, types: arb_bytes(u, if invalid { 40 } else { 30 }) },
+        _ => RespVendorSupport { cc: b(u) % 6, selector: b(u), vendor_id: arb_bytes(u, 7) },
+    }
+}
+
+/// `enc` target: the bytes are decoded into a sender environment (addresses,
+/// EID state, a short prior history) and one encoder call; the encoder-side
+/// oracles are evaluated on it.
+pub fn enc_one(data: &[u8], mask: &[&str], known: &Known) -> Vec<Found> {
+    use props::common::EncCase;
+    let mut out = Vec::new();
+    if data.len() < 4 {
+        return out;
+    }
+    let mut u = Unstructured::new(data);
+    let flags = u.arbitrary::<u8>().unwrap_or(0);
+    let addr = u.arbitrary::<u8>().unwrap_or(0x23);
+    let dest = u.arbitrary::<u8>().unwrap_or(0x34);
+    let eid_req = u.arbitrary::<u8>().unwrap_or(0);
+    let eid_resp = u.arbitrary::<u8>().unwrap_or(0);
+    let hist = if flags & 0x03 == 0 {
+        let cfg = CtxCfg { addr: addr & 0x7F, msg_types: vec![], vendors: vec![(0, 0x1234, 0xAB)] };
+        arb_ops(&mut u, &cfg, 3)
+    } else {
+        vec![]
+    };
+    let on = |id: &str| mask.is_empty() || mask.contains(&id);
+    let invalid = on("C16") || on("C04");
+    let call = arb_enc_call(&mut u, invalid);
+    let env7 = EncEnv { addr: addr & 0x7F, dest: dest & 0x7F, eid_req, eid_resp, eid_via_process: flags & 0x04 != 0, hist: hist.clone() };
+    let env8 = EncEnv { addr, dest, eid_req, eid_resp, eid_via_process: flags & 0x04 != 0, hist };
+    let case7 = EncCase { env: env7.clone(), call: call.clone() };
+    if on("C01") {
+        let recv = preset_cfg(flags >> 4, dest);
+        collect(&props::c01::C01, &props::c01::Case { enc: case7.clone(), recv, recv_hist: preset_hist(flags) }, known, &mut out);
+    }
+    if on("C03") {
+        collect(&props::c03::C03, &props::common::PktCase::Enc(case7.clone()), known, &mut out);
+    }
+    if on("C04") {
+        collect(&props::c04::C04, &props::common::PktCase::Enc(case7.clone()), known, &mut out);
+    }
+    if on("C05") {
+        collect(&props::c05::C05, &props::common::PktCase::Enc(EncCase { env: env8, call: call.clone() }), known, &mut out);
+    }
+    if on("C06") && call.is_request_encoder() {
+        collect(&props::c06::C06, &case7, known, &mut out);
+    }
+    if on("C07") && call.is_response_encoder() {
+        collect(&props::c07::C07, &case7, known, &mut out);
+    }
+    if on("C08") && matches!(call, EncCall::ReqVendor { .. } | EncCall::TraitPci { .. } | EncCall::TraitIana { .. } | EncCall::TraitSpdm { .. }) {
+        collect(&props::c08::C08, &case7, known, &mut out);
+    }
+    if on("C16") {
+        let pa = flags | 1;
+        collect(&props::c16::C16, &props::c16::Case { enc: case7, extra: (flags >> 3) as u16, poison_a: pa, poison_b: pa ^ 0xFF | 2 }, known, &mut out);
+    }
+    out
+}
+
+pub fn enc_seed_corpus() -> Vec<Vec<u8>> {
+    let mut v = Vec::new();
+    for k in 0u8..28 {
+        let mut d = vec![k.wrapping_mul(37), 0x23, 0x34, k, k ^ 0x5A, k];
+        for i in 0..40u8 {
+            d.push(i.wrapping_mul(k | 1).wrapping_add(k));
+        }
+        v.push(d);
+    }
+    v
+}
+
 pub fn mask_from_env() -> Vec<String> {
     std::env::var("MCTP_FUZZ_PROPS").ok().map(|s| s.split(',').filter(|x| !x.is_empty()).map(|x| x.to_string()).collect()).unwrap_or_default()
 }
@@ -280,7 +438,11 @@ pub fn target_body(which: &str, data: &[u8]) {
         (Known::load(&crate::engine::verif_root().join("KNOWN_FINDINGS.txt")), mask_from_env())
     });
     let m: Vec<&str> = mask.iter().map(|s| s.as_str()).collect();
-    let found = if which == "recv" { recv_one(data, &m, known) } else { hist_one(data, &m, known) };
+    let found = match which {
+        "recv" => recv_one(data, &m, known),
+        "hist" => hist_one(data, &m, known),
+        _ => enc_one(data, &m, known),
+    };
     if let Some(f) = found.first() {
         eprintln!("FUZZ-FOUND property={} sig={} :: {}", f.prop, f.sig, f.detail);
         std::process::abort();
